@@ -124,7 +124,7 @@ type SuiteDef struct {
 }
 
 func runCase(o *Out, def SuiteDef, c genCase) {
-	if def.Synctest {
+	if def.Synctest && !strings.Contains(c.header, "realtime") {
 		if bubble == nil {
 			fmt.Fprintln(os.Stderr, "this suite needs the test binary (go test -c): testing/synctest")
 			os.Exit(2)
